@@ -318,3 +318,45 @@ def merge_by_run(traces):
                 out.append(e)
         out.append({"ev": "end", "run": k})
     return out
+
+
+_FAM_ALIAS = {"Tdes": "Des", "Magma": "Gost"}
+
+
+def coarse_family(type_name):
+    """A partition of the catalogue types that is coarser than "may share a key class" (Enc/Dec halves, DES and its
+    triple forms, the S-box sets of GOST 28147-89, re-parameterised twins all stay together)."""
+    import re
+    m = re.match(r"[A-Z][a-z]+", type_name)
+    f = m.group(0) if m else re.match(r"[A-Z]+", type_name).group(0)
+    return _FAM_ALIAS.get(f, f)
+
+
+def split_by_family(events):
+    """Re-cut a single-run trace into one run per coarse family (events keep their relative order).  Key classes never
+    span two families, so each run can learn its own permutations and the runs can be validated in parallel."""
+    fam_of, runs, order = {}, {}, []
+    reset = next((e for e in events if e.get("ev") == "reset"), {"ev": "reset", "run": 0})
+    for e in events:
+        ev = e.get("ev")
+        if ev in ("reset", "end"):
+            continue
+        if "type" in e and "id" in e:
+            fam_of[e["id"]] = coarse_family(e["type"])
+        if ev in ("clone", "from") and e.get("src") in fam_of and e.get("id") not in fam_of:
+            fam_of[e["id"]] = fam_of[e["src"]]
+        f = fam_of.get(e.get("id")) or (coarse_family(e["type"]) if "type" in e else "misc")
+        if f not in runs:
+            runs[f] = []
+            order.append(f)
+        runs[f].append(e)
+    out = []
+    for k, f in enumerate(order):
+        r = dict(reset)
+        r["run"] = k
+        r["what"] = f"{reset.get('what', '')}/{f}"
+        out.append(r)
+        out += runs[f]
+        out.append({"ev": "end", "run": k})
+    return out
+
